@@ -484,6 +484,9 @@ class Parser():
                        not self._tokens[then_end_pos].matches(lexer.TokNewline)):
                     then_end_pos += 1
 
+                # (A short-if on the line of another short-if must not lift
+                # the enclosing one's fence when it ends.)
+                prev_max_pos = self._max_pos
                 try:
                     self._max_pos = then_end_pos
                     block = self._assert(self._chunk(),
@@ -493,7 +496,7 @@ class Parser():
                         # PICO-8 accepts an else with nothing after it.
                         else_block = self._chunk()
                 finally:
-                    self._max_pos = None
+                    self._max_pos = prev_max_pos
 
                 # (Use exp.value here to unwrap the condition from the
                 # bracketed expression.)
